@@ -394,6 +394,66 @@ class LineGrammar:
         return acc, False, False
 
 
+    # ---- how an accepted input can BEGIN: the blanks consumed before the first token, and that token
+    def is_blank_term(self, t):
+        """`t` consumes only blanks / line ends (finite alphabet, every literal is white space)"""
+        a = self.alphabet(t)
+        return a is not None and bool(a) and all(x.strip() == "" for x in a)
+
+    def crosses_line_end(self, t):
+        """a blank term that can consume a line end (positive evidence: a literal of its alphabet contains one)"""
+        a = self.alphabet(t) or ()
+        return any(("\n" in x or "\r" in x) for x in a)
+
+    def lead_paths(self, terms, ws=(), owner=None, depth=0, seen=(), chain=()):
+        """every way an input accepted by the term sequence `terms` can begin, as a list of (blank terms consumed first, literals of the first non-blank token or
+        None when it is not a finite token, name of the parser function that holds the token, the terms that follow the token in that function, the chain of
+        helper parsers entered on the way to the token).
+        Look-aheads are skipped, alternatives are followed one by one, helper parsers (straight-line functions) are looked through, optional leading parts are both
+        taken and skipped.  Used to decide which white space may stand between an operand and the operator token that follows it."""
+        out = []
+        if depth > 12:
+            return [(ws, None, owner, (), chain)]
+        terms = list(terms)
+        for i, x in enumerate(terms):
+            rest = terms[i + 1:]
+            k = x[0]
+            if k in ("la", "empty"):
+                continue
+            if k == "seq":
+                return out + self.lead_paths(list(x[1]) + rest, ws, owner, depth + 1, seen, chain)
+            if self.is_blank_term(x):
+                ws = ws + (x,)
+                continue
+            if k == "lit":
+                return out + [(ws, frozenset([x[1]]), owner, tuple(rest), chain)]
+            if k == "alt":
+                for y in x[1]:
+                    out += self.lead_paths([y] + rest, ws, owner, depth + 1, seen, chain)
+                return out
+            if k in ("opt", "star", "plus"):
+                out += self.lead_paths([x[1]] + ([("star", x[1])] if k != "opt" else []) + rest, ws, owner, depth + 1, seen, chain)
+                if k == "plus" and not self.nullable(x[1]):
+                    return out
+                continue          # the optional part skipped: what follows it can begin the input too
+            if k == "sep":
+                out += self.lead_paths([x[2]] + rest, ws, owner, depth + 1, seen, chain)
+                if x[3]:
+                    return out
+                continue
+            if k == "nt":
+                st = self.steps(x[1]) if x[1] not in seen else None
+                if st:
+                    out += self.lead_paths(st, ws, x[1], depth + 1, seen + (x[1],), chain + (x[1],))
+                    if not self.nullable(x):
+                        return out
+                    continue
+                a = self.alphabet(x)
+                return out + [(ws, frozenset(a) if a else None, x[1], tuple(rest), chain + (x[1],))]
+            return out + [(ws, None, owner, tuple(rest), chain)]
+        return out
+
+
 def parser_applications(node, fns):
     """pre-order (= source order) list of (parser name, call node) for every application of a parser function of the crate inside `node`: `p(x)` and
     `comb(p, ..)(x)` (opt / peek / many0 / null / label ..: every parser named in an ARGUMENT position of the combinator expression - the combinator's own
